@@ -29,6 +29,8 @@ CFG = DC.Config("C01", D.ALL_KINDS, make_cmds, nsets=(9, 60), big=True,
                      "build parameters x {fresh, reloaded via generic loader, own loader (thorough)}; every ID 1..n extracted "
                      "and every member located. Non-trivial = a query command; distinct by (kind, params, S, command).")
 
+CFG.fm_text_residues = [31, 0, 1, 30, 63 % 32, 15, 31]
+
 
 def check(run, tier, seed, replay):
     run.assumptions = ["string lengths and counts below 2^32 (the iterator reports lengths as uint)",
